@@ -2,6 +2,7 @@ import Driver.Core
 import IGVerif.Model.Vis
 import IGVerif.Spec.Shape
 import Driver.GenSup
+import Driver.C16
 namespace Drv
 open Lean IGVerif
 
@@ -69,11 +70,19 @@ def genVisCases (tier : String) (seed : Nat) (tagp : String) : Array Case := Id.
               [Part.nested { sym := pr, anno := some "ctx=y".toList } (Stmt.mk i1)] ++ mid ++ [Part.nested { sym := pr } (Stmt.mk i2)]))
           let (s, _) ← g.run 0
           pure s) rng
+      else if i % 8 = 3 then
+        -- private (suffix-linked) properties, at top level and inside a nested statement
+        (do
+          let top ← genC16Stmt true
+          let inner ← genC16Stmt false
+          let ok := kfC16 top = "" && kfC16 inner = ""
+          let s := if ok then Stmt.mk (top.parts ++ [Part.nested { sym := Sym.Cac } inner]) else Stmt.mk [Part.ann { sym := Sym.A } true (.leaf (str "x"))]
+          pure s) rng
       else if i % 3 = 0 then genC01 { suffixes := false, maxDepth := 2, maxComps := 5 } rng
       else if i % 3 = 1 then genSupC02 2 rng
       else genNestedSup { depth := 1, pairs := true, nestedPairs := true, groupNested := true } rng
     rng := rng'
-    let kind := if i % 8 = 7 then "nested-properties" else if i % 3 = 0 then "simple" else if i % 3 = 1 then "nested" else "pairs"
+    let kind := if i % 8 = 7 then "nested-properties" else if i % 8 = 3 then "private-properties" else if i % 3 = 0 then "simple" else if i % 3 = 1 then "nested" else "pairs"
     for v in [0:32] do
       out := out.push (visCase s!"{tagp}-{i}-{v}" kind s v)
   pure out
